@@ -15,6 +15,20 @@ def handle : List Sx → Sx
       | some ms, some es => renderResults shape (getitemObj shape ms es)
       | _, _ => err "operand"
     | none => err "shape"
+  | [.atom "getseq", ents, targets] =>
+    -- one index applied to several objects in turn (the model has no state: each result is fresh)
+    match parseEntries ents, targets.toList? with
+    | some es, some ts =>
+      .list ((ts.map fun t => match t with
+        | .list [sh, masks] =>
+          match sh.nats? with
+          | some shape =>
+            match parseMasks shape masks with
+            | some ms => renderResults shape (getitemObj shape ms es)
+            | none => err "operand"
+          | none => err "shape"
+        | _ => err "target") ++ [.atom "index-unchanged"])
+    | _, _ => err "operand"
   | [.atom "iter", sh, masks] =>
     match sh.nats? with
     | some shape =>
